@@ -45,7 +45,7 @@ def plan(tier, seed):
 
 def mandatory_bins(tier):
     return ["sweep_customer", "sweep_project", "sweep_device", "sweep_version", "project_9999", "device_9999", "device_0", "name_absent", "name_only", "name_with_version_suffix",
-            "prj_settings_subsets", "dev_settings_subsets", "fallback_name_only", "missing_error", "byte_width_1", "byte_width_2", "byte_width_3", "byte_width_4", "byte_width_8", "unparsable", "ambiguous_name", "parse_again_after_caller_edited_the_first_result", "naming_values_given_as_bytearray"]
+            "prj_settings_subsets", "dev_settings_subsets", "fallback_name_only", "missing_error", "byte_width_1", "byte_width_2", "byte_width_3", "byte_width_4", "byte_width_8", "unparsable", "ambiguous_name", "parse_again_after_caller_edited_the_first_result", "naming_values_given_as_bytearray", "identifiers_differing_in_one_field_compare_unequal"]
 
 
 def fields(obj):
@@ -85,6 +85,22 @@ def check_id(ns, ctx, c, p, d, v, name):
         else:
             ctx.violation("print_then_parse_gives_other_identifier", {"id": rp["id"], "text": text, "reparsed": fields(back)}, rp)
         return
+    # equality must also tell identifiers APART: change one field at a time
+    if (v + (c or 0)) % 7 == 0:
+        ctx.bin("identifiers_differing_in_one_field_compare_unequal")
+        variants = [(c2, p, d, v, name) for c2 in ([(c + 1) % 100000 if (c + 1) % 100000 != 9999 else 10000] if c is not None else [])]
+        if c is not None:
+            variants += [(c, (p or 0) + 1 if (p or 0) + 1 not in (9999, 10000) else 1, d, v, name), (c, p, (d or 0) + 1 if (d or 0) + 1 not in (9999, 10000) else 1, v, name)]
+        variants += [(c, p, d, (v + 1) % 100, name), (c, p, d, v, (name or "") + "x")]
+        for var in variants:
+            try:
+                o2 = CI(*var)
+                if (o2 == obj) or not (o2 != obj) or (obj == o2):
+                    ctx.violation("identifiers_differing_in_one_field_compare_equal", {"a": rp["id"], "b": list(var)}, rp)
+                    break
+            except Exception as e:
+                ctx.violation("printing_identifier_raises:other", {"id": list(var), "exc": fmt_exc(e)}, rp)
+                break
     # canonical text -> parse -> print gives the same text
     try:
         again = str(CI.create_from_str(canon))
